@@ -13,6 +13,7 @@
   last stop-1 header), not a fold of the checker's state. `running_iff` is by induction over the
   history with the invariant that the checker's state encodes exactly that closed form.
 -/
+import FastPasta.Proofs.LinkRdhSrcTie
 import FastPasta.Model.Cdp
 import FastPasta.Proofs.Bits
 import FastPasta.Proofs.RdhSrcTie
@@ -364,6 +365,25 @@ theorem validator_for_config_src (cfg : SrcRdh.CfgAbs) :
     SrcRdh.RdhCruSanityValidator.new_from_config cfg =
       SrcTie.mkValidator (if cfg.customEnabled then cfg.rdhVersion else none) (if cfg.target.isSome then some 32 else none) :=
   SrcTie.new_from_config_eq cfg
+
+
+/-! ### tie by translation: which RDH checks a link validator runs, in which order, and where it reports
+    (`LinkValidator::do_rdh_checks`, link_validator.rs → `Spec/LinkRdhSrcGen.lean`, translated on this run) -/
+/-- for every header and every related validator state: the sanity validator runs first and learns the header id; the running checker
+    runs only under `check all`; a failure of either is reported exactly once, at the packet's offset, `[E10]` before `[E11]` —
+    the `m1`, `m2`, `expectId`, `run` part of the model's `linkStep`, on which `sanity_iff` / `running_iff` and the C02 theorems rest -/
+theorem link_rdh_checks_src (cfg : CheckCfg) (v : SrcLinkRdh.LinkValidator) (s : LinkSt) (c : SrcRdh.RdhCru) (off : Nat) (sysId : Option Nat)
+    (hrun : v.f_running_checks = cfg.running) (hsan : v.f_rdh_sanity_validator = SrcTie.mkValidator s.expectId sysId)
+    (habs : SrcTie.runAbs v.f_rdh_running_validator = s.run) (hwf : SrcTie.RunWf v.f_rdh_running_validator)
+    (hfee : c.f_rdh0.f_fee_id.f_0 < 65536) (hcd : c.f_cruid_dw.f_0 < 65536) :
+    (v.do_rdh_checks c off).2.f_rdh_sanity_validator = SrcTie.mkValidator (some (s.expectId.getD (SrcTie.toModel c).headerId)) sysId ∧
+    SrcTie.runAbs (v.do_rdh_checks c off).2.f_rdh_running_validator =
+      (if cfg.running then (runningStep s.run (SrcTie.toModel c)).1 else s.run) ∧
+    SrcTie.RunWf (v.do_rdh_checks c off).2.f_rdh_running_validator ∧
+    SrcTie.outMsgs (v.do_rdh_checks c off).2.f_out = SrcTie.outMsgs v.f_out ++
+      (if rdhSanityBad (s.expectId.getD (SrcTie.toModel c).headerId) sysId (SrcTie.toModel c) then [mkErrNoWord off "E10"] else []) ++
+      (if (if cfg.running then (runningStep s.run (SrcTie.toModel c)).2 else false) then [mkErrNoWord off "E11"] else []) :=
+  (SrcTie.do_rdh_checks_eq cfg v s c off sysId hrun hsan habs hwf hfee hcd).2
 
 end C10
 end FastPasta
